@@ -663,7 +663,9 @@ pub fn gen_voice(rng: &mut Rng, id: u32, kind: Kind, n_in: u32, max_delay: u32) 
         }
         Kind::Duo => {}
         Kind::GlobK | Kind::MainCl => p[0] = small(rng),
-        Kind::Leaky => p[0] = gain(rng),
+        // one in six leaky integrators has a gain that drives the cell to +/-inf within six
+        // samples: non-finite cell values are state like any other
+        Kind::Leaky => p[0] = if rng.chance(1, 6) { *rng.pick(&[1e60, -1e60]) } else { gain(rng) },
         Kind::Late | Kind::LateMem => {
             p[0] = small(rng);
             p[1] = *rng.pick(&[0.0, 1.0, 3.0, 10.0, 40.0, 200.0]);
@@ -746,7 +748,8 @@ pub fn tweak_constant(rng: &mut Rng, v: &mut Voice) -> bool {
             ok
         }
         Kind::Leaky => {
-            v.p[0] = if v.p[0] == 0.5 { 0.25 } else { 0.5 };
+            // a blown-up integrator edited to gain 0 turns inf into NaN (inf * 0)
+            v.p[0] = if v.p[0].abs() > 1e50 { 0.0 } else if v.p[0] == 0.5 { 0.25 } else { 0.5 };
             true
         }
         Kind::Gate => {
